@@ -61,9 +61,11 @@ def parse_result(out):
     m = re.search(r"Verification Time: ([\d.]+)s", out)
     if m:
         res["time_s"] = float(m.group(1))
-    if "Status: ERROR" in out or "CBMC failed" in out or "out of memory" in out.lower():
-        if res["status"] != "failed":
-            res["status"] = "unknown"
+    # a timeout / crash / out-of-memory run prints VERIFICATION:- FAILED too: it is NOT a verdict
+    if "CBMC timed out" in out or "Status: ERROR" in out or "out of memory" in out.lower() or \
+            (res["status"] == "failed" and not res["failed_checks"] and "Failed Checks:" not in out):
+        res["status"] = "unknown"
+        res["why_unknown"] = "timeout" if "CBMC timed out" in out else "cbmc error / no failed check reported"
     return res
 
 
